@@ -332,6 +332,45 @@ def c19(lines, out):
                 v.append(('system_sender', '%s naming a sender' % topic))
         elif topic.startswith('LIBMODULE_'):
             v.append(('system_flag', 'message on %s without the system flag' % topic))
+    # never a notification that corresponds to no transition of the named module: every entry into RUNNING and every
+    # pause / stop / deregistration of a module is visible in the trace (state printed with each hook invocation and
+    # after every call, also the nested ones), so the notifications naming X that one recipient was handed can never
+    # outnumber the transitions of X seen so far
+    seen, enters, leaves = {}, {}, {}
+    got = {}
+
+    def observe(x, st):
+        # (the evaluation pass of the loop starts IDLE modules without any trace of its own when they have no start hook:
+        # an IDLE module seen next as PAUSED / STOPPED / gone may have been started and left RUNNING in between)
+        a = seen.get(x, 'I')
+        if a != st:
+            if st == 'R' or (a in ('I', 'S') and st == 'P') or (a == 'I' and st in ('S', 'Z')):
+                enters[x] = enters.get(x, 0) + 1
+            # (a deregistration is announced whatever the state of the module was)
+            if (a in ('R', 'P') and st in ('P', 'S')) or (a in ('I', 'S') and st == 'P') or (a == 'I' and st == 'S') or st == 'Z':
+                leaves[x] = leaves.get(x, 0) + 1
+            seen[x] = st
+    for kind, inv, r in tr.events:
+        if kind == 'I':
+            cb, hd, h, stt, evs = parse_invoke(inv)
+            observe(h, stt)
+            if cb == 'on_evt' and r.op.split()[0] != 'unstash':
+                for k, f in evs:
+                    if k == 'ps' and f[3] == '1' and f[1] not in ('-', '?') and f[0] in ('LIBMODULE_MOD_STARTED', 'LIBMODULE_MOD_STOPPED'):
+                        key = (h, f[0], f[1])
+                        got[key] = got.get(key, 0) + 1
+                        lim = (enters if f[0].endswith('STARTED') else leaves).get(f[1], 0)
+                        if f[0].endswith('STARTED') and seen.get(f[1], 'I') == 'I':
+                            lim += 1      # started by the evaluation pass of this very call, not yet shown
+                        if got[key] > lim:
+                            v.append(('one_per_transition', '%s was handed notification number %d of %s naming %s, which made %d such transitions'
+                                      % (h, got[key], f[0], f[1], lim)))
+        elif r.dump:
+            _, mods = parse_dump(r.dump)
+            for x, m in mods.items():
+                observe(x, m['state'])
+            for x in [x for x in seen if x not in mods]:
+                observe(x, 'Z')
     return v
 
 
@@ -524,7 +563,7 @@ def c03(lines, out):
     v = common(tr)
     owner = {}
     ever = set()
-    tm_live, tm_gone = set(), set()
+    tm_live, tm_gone, tm_low, batching = set(), set(), set(), set()
     last_state = {}
     quit_code = None
     for kind, inv, r in tr.events:
@@ -532,11 +571,14 @@ def c03(lines, out):
             cb, hd, h, stt, evs = parse_invoke(inv)
             if cb == 'on_evt' and r.op.split()[0] != 'unstash' and not any(x.op.split()[0] == 'stash' for x in tr.recs):
                 for k, f in evs:
-                    if k == 'tmr' and ('tmr', h, f[0]) in tm_gone and ('tmr', h, f[0]) not in tm_live:
+                    # (an event already received and waiting in the module's batch - low priority, batch size or batch
+                    # timeout - is legitimately handed over after its source left: only immediate delivery is judged)
+                    if k == 'tmr' and ('tmr', h, f[0]) in tm_gone and ('tmr', h, f[0]) not in tm_live \
+                            and ('tmr', h, f[0]) not in tm_low and h not in batching:
                         v.append(('registered_only', 'event of timer %s delivered to %s although it was deregistered' % (f[0], h)))
                     if k == 'fd':
                         o = owner.get(('fd', f[0][1:]))
-                        if o is None and ('fd', f[0][1:]) in ever:
+                        if o is None and ('fd', f[0][1:]) in ever and ('fd', f[0][1:]) not in tm_low and h not in batching:
                             v.append(('registered_only', 'event of descriptor %s delivered to %s although the source is not registered any more' % (f[0], h)))
                         if o and (o[0] != h or 'u' + o[1] != f[1]):
                             v.append(('owner', 'event of descriptor %s registered by %s with u%s delivered to %s with %s' % (f[0], o[0], o[1], h, f[1])))
@@ -546,9 +588,13 @@ def c03(lines, out):
             # with M_SRC_DUP the source is the library's duplicate (reported as 100 + k)
             owner[('fd', str(100 + int(t[2][1:])) if 'd' in t[3] else t[2][1:])] = (t[1], t[4][1:])
             ever.add(('fd', str(100 + int(t[2][1:])) if 'd' in t[3] else t[2][1:]))
+            (tm_low.add if 'l' in t[3] else tm_low.discard)(('fd', str(100 + int(t[2][1:])) if 'd' in t[3] else t[2][1:]))
             if 'o' in t[3]: ever.discard(('fd', str(100 + int(t[2][1:])) if 'd' in t[3] else t[2][1:]))   # (a one-shot leaves by itself)
         if t[0] == 'dereg_fd' and r.result == '0': owner.pop(('fd', t[2][1:]), None)
-        if t[0] == 'reg_tmr' and r.result == '0': tm_live.add(('tmr', t[1], t[2])); tm_gone.discard(('tmr', t[1], t[2]))
+        if t[0] == 'reg_tmr' and r.result == '0':
+            tm_live.add(('tmr', t[1], t[2])); tm_gone.discard(('tmr', t[1], t[2]))
+            (tm_low.add if 'l' in t[3] else tm_low.discard)(('tmr', t[1], t[2]))
+        if t[0] in ('batch_size', 'batch_to') and len(t) > 1: batching.add(t[1])
         if t[0] == 'dereg_tmr' and r.result == '0': tm_gone.add(('tmr', t[1], t[2])); tm_live.discard(('tmr', t[1], t[2]))
         if t[0] == 'quit' and r.result == '0': quit_code = int(t[1]) % 256
         if any(x == 'BATCH !quit' for x in r.out): quit_code = 77
